@@ -473,3 +473,7 @@ def check(run, replay=None):
     run.require_counter("uint16_frames", 10)
     run.require_counter("labelpeaks_runs", 20)
     run.require_counter("labelpeaks_history_frames", 60)
+
+
+# workloads added in seeding rounds 7-10 (DESIGN.md sections 13.9-13.12)
+LEVEL_TEXT = LEVEL_TEXT + ' Later additions: explicit thresholds against another recorded threshold; several Python threads labelling private frames at the same time (each result equals the one the call gives alone).'
